@@ -34,6 +34,8 @@ type LoopSpec struct {
 	Ordinal  int
 	CondText string
 	Invs     []*Clause
+	Assumes  []*Clause // assumed, unchecked loop facts (listed as assumptions)
+	Uses     []string  // lemma instances asserted at the loop header (header state)
 	Modifies []string
 	Line     int
 }
@@ -61,6 +63,11 @@ type FuncContract struct {
 	File     string
 	NoPanicOnly bool
 	Nilable  []string
+	Mutates  bool // may change unmodelled world state (observer results)
+	MathLemma  bool // closed arithmetic lemma (no Go function)
+	MathParams []SParam
+	Patterns   []*Clause
+	Uses       []string // math lemmas made available (as quantified axioms) in this function's VC
 }
 
 // AtCall pins the arguments of a (havocked) call inside the function body:
@@ -104,7 +111,7 @@ type ContractFile struct {
 var clauseKeywords = map[string]bool{
 	"serves": true, "requires": true, "ensures": true, "modifies": true, "nowrap": true,
 	"arith": true, "loop": true, "invariant": true, "ghost": true, "trusted": true,
-	"atcall": true, "lemma": true, "opaque": true, "loopmodifies": true, "nopanic": true, "nilable": true,
+	"atcall": true, "uses": true, "pattern": true, "opaque": true, "loopmodifies": true, "nopanic": true, "nilable": true, "mutates": true, "assume-invariant": true,
 }
 
 func ParseContractFile(path, pkgPath string) (*ContractFile, error) {
@@ -196,6 +203,22 @@ func ParseContractText(path, pkgPath, text string) (*ContractFile, error) {
 			cf.Pures = append(cf.Pures, pf)
 			curF, curLoop = nil, nil
 			contTarget = nil
+		case first == "lemma" && strings.Contains(rest, "("):
+			// mathematical lemma: lemma name(x int, y int) + requires/ensures/pattern
+			k := strings.Index(rest, "(")
+			e := strings.LastIndex(rest, ")")
+			if e < k {
+				return nil, fmt.Errorf("%s:%d: bad lemma header", path, rl.line)
+			}
+			ps, err := parseParamList(rest[k+1 : e])
+			if err != nil {
+				return nil, fmt.Errorf("%s:%d: %v", path, rl.line, err)
+			}
+			fc := &FuncContract{Header: s, Line: rl.line, Arith: "int", MathLemma: true, MathParams: ps, Key: "lemma:" + strings.TrimSpace(rest[:k])}
+			fc.Pkg, fc.File = pkgPath, path
+			cf.Funcs = append(cf.Funcs, fc)
+			curF, curLoop = fc, nil
+			contTarget = nil
 		case first == "func":
 			fc, err := parseFuncHeader(s, rl.line)
 			if err != nil {
@@ -244,6 +267,14 @@ func ParseContractText(path, pkgPath, text string) (*ContractFile, error) {
 			case "nowrap":
 				curF.NoWrap = true
 				contTarget = nil
+			case "assume-invariant":
+				if curLoop == nil {
+					return nil, fmt.Errorf("%s:%d: assume-invariant outside loop", path, rl.line)
+				}
+				curLoop.Assumes = append(curLoop.Assumes, addExprClause("assume-invariant", rest, rl.line))
+			case "mutates":
+				curF.Mutates = true
+				contTarget = nil
 			case "nilable":
 				curF.Nilable = append(curF.Nilable, strings.Fields(strings.ReplaceAll(rest, ",", " "))...)
 				contTarget = nil
@@ -253,9 +284,18 @@ func ParseContractText(path, pkgPath, text string) (*ContractFile, error) {
 			case "arith":
 				curF.Arith = rest
 				contTarget = nil
-			case "lemma":
-				curF.Lemma = true
+			case "uses":
+				if curLoop != nil {
+					curLoop.Uses = append(curLoop.Uses, rest)
+				} else if strings.Contains(rest, "(") {
+					curF.Uses = append(curF.Uses, rest)
+				} else {
+					curF.Uses = append(curF.Uses, strings.Fields(strings.ReplaceAll(rest, ",", " "))...)
+				}
 				contTarget = nil
+			case "pattern":
+				c := addExprClause("pattern", rest, rl.line)
+				curF.Patterns = append(curF.Patterns, c)
 			case "opaque":
 				curF.Opaque = true
 				contTarget = nil
